@@ -234,6 +234,6 @@ LawKind == IsCase =>
     [] c.kind = "entry" -> LawEntryCredit(Len(K.S[1].ent), K.mode)
     [] c.kind = "linear" -> LET E == LinE(K)  dE == K.P[1][1].den  S == LinS(K)  dS == K.S[1].den IN
                             /\ LawRelationHierarchy(E, dE, S, dS) /\ LawLinearCreditConfigured(K.cfg, E, dE, S, dS)
-                            /\ \A m \in Modes : \A q \in {Zero, <<1, 2>>, One} : LawMoreModesNeverLower(K.cfg, E, dE, S, dS, m, q)
+                            /\ \A m \in Modes : \A q \in {<<1, 2>>, One} : LawMoreModesNeverLower(K.cfg, E, dE, S, dS, m, q)
     [] OTHER -> TRUE
 =============================================================================
